@@ -262,3 +262,132 @@ def check_ratelimiter(cases, awr_cases):
             if got != exp:
                 bad.append(dict(cls="AntiWindupRate", case={q: c[q] for q in c if q != "exp"}, expected=exp, got=got))
     return bad
+
+
+def _owner(n):
+    from types import SimpleNamespace
+    return SimpleNamespace(class_name="Probe", idx=SimpleNamespace(v=list(range(n))))
+
+
+def _num(v):
+    return int(v) if float(v).is_integer() else float(v)
+
+
+def check_gate(cases):
+    """Discrete.check_iter_err (-1 in the lattice = argument not supplied); err_tol / err in hundredths."""
+    NumParam, Algeb, State = _mk()
+    from andes.core.discrete import Limiter
+    bad = []
+    for c in cases:
+        u, lo, hi = Algeb(), NumParam(), NumParam()
+        u.v, lo.v, hi.v = np.zeros(1), -np.ones(1), np.ones(1)
+        lim = Limiter(u, lo, hi, min_iter=c["min_iter"], err_tol=c["err_tol"] / 100.0)
+        got = lim.check_iter_err(niter=None if c["niter"] < 0 else c["niter"], err=None if c["err"] < 0 else c["err"] / 100.0)
+        if bool(got) != c["open"]:
+            bad.append(dict(cls="Discrete.check_iter_err", case={q: c[q] for q in c if q != "open"}, expected=c["open"], got=bool(got)))
+    return bad
+
+
+def check_adjust(cases, aw_cases):
+    """Limit adjustment at initialisation: Limiter / HardLimiter.check_var and AntiWindup.check_eq with is_init."""
+    NumParam, Algeb, State = _mk()
+    from andes.core.discrete import Limiter, HardLimiter, AntiWindup
+    bad = []
+    groups = {}
+    for c in cases:
+        groups.setdefault((c["eq"], c["comp_allow"], c["model_allow"], c["adj_lo"], c["adj_hi"], c["is_init"]), []).append(c)
+    for (eq, ca, ma, al, ah, ii), cs in groups.items():
+        for cls in (Limiter, HardLimiter):
+            n = len(cs)
+            u, lo, hi = Algeb(), NumParam(), NumParam()
+            u.name, lo.name, hi.name = "u", "lower", "upper"
+            u.v = np.array([float(c["u"]) for c in cs])
+            lo.v = np.array([float(c["lo"]) for c in cs])
+            hi.v = np.array([float(c["hi"]) for c in cs])
+            lim = cls(u, lo, hi, equal=eq, allow_adjust=ca, name="lim")
+            lim.owner = _owner(n)
+            lim.list2array(n)
+            lim.check_var(allow_adjust=ma, adjust_lower=al, adjust_upper=ah, is_init=ii)
+            for k, c in enumerate(cs):
+                got = dict(lo=_num(lo.v[k]), hi=_num(hi.v[k]), flags=dict(zu=int(lim.zu[k]), zl=int(lim.zl[k]), zi=int(lim.zi[k])))
+                if got != c["exp"]:
+                    bad.append(dict(cls="%s.adjust" % cls.__name__, case={q: c[q] for q in c if q != "exp"}, expected=c["exp"], got=got))
+    groups = {}
+    for c in aw_cases:
+        groups.setdefault((c["comp_allow"], c["model_allow"], c["adj_lo"], c["adj_hi"], c["is_init"]), []).append(c)
+    for (ca, ma, al, ah, ii), cs in groups.items():
+        n = len(cs)
+        x, lo, hi = State(), NumParam(), NumParam()
+        x.name, lo.name, hi.name = "x", "lower", "upper"
+        x.v = np.array([float(c["x"]) for c in cs])
+        x.e = np.array([float(c["e"]) for c in cs])
+        x.a = np.arange(n)
+        lo.v = np.array([float(c["lo"]) for c in cs])
+        hi.v = np.array([float(c["hi"]) for c in cs])
+        aw = AntiWindup(x, lo, hi, allow_adjust=ca, name="aw")
+        aw.owner = _owner(n)
+        aw.list2array(n)
+        aw.check_var(allow_adjust=ma, adjust_lower=al, adjust_upper=ah, is_init=ii)
+        aw.check_eq(allow_adjust=ma, adjust_lower=al, adjust_upper=ah, is_init=ii)
+        for k, c in enumerate(cs):
+            got = dict(lo=_num(lo.v[k]), hi=_num(hi.v[k]),
+                       aw=dict(zu=int(aw.zu[k]), zl=int(aw.zl[k]), zi=int(aw.zi[k]), x=_num(x.v[k]), e=_num(x.e[k])))
+            if got != c["exp"]:
+                bad.append(dict(cls="AntiWindup.adjust", case={q: c[q] for q in c if q != "exp"}, expected=c["exp"], got=got))
+    return bad
+
+
+def check_aw_lock(cases):
+    """AntiWindup flags inside one Newton loop: free up to niter_lock iterations, sticky afterwards."""
+    NumParam, Algeb, State = _mk()
+    from andes.core.discrete import AntiWindup
+    bad = []
+    groups = {}
+    for c in cases:
+        groups.setdefault(c["niter"], []).append(c)
+    for niter, cs in groups.items():
+        n = len(cs)
+        x, lo, hi = State(), NumParam(), NumParam()
+        x.v = np.array([float(c["x1"]) for c in cs])
+        x.e = np.array([float(c["e1"]) for c in cs])
+        x.a = np.arange(n)
+        lo.v = np.array([float(c["lo"]) for c in cs])
+        hi.v = np.array([float(c["hi"]) for c in cs])
+        aw = AntiWindup(x, lo, hi)
+        aw.list2array(n)
+        aw.check_eq(niter=0)
+        first = [dict(zu=int(aw.zu[k]), zl=int(aw.zl[k]), zi=int(aw.zi[k]), x=_num(x.v[k]), e=_num(x.e[k])) for k in range(n)]
+        x.v[:] = [float(c["x2"]) for c in cs]
+        x.e[:] = [float(c["e2"]) for c in cs]
+        aw.check_eq(niter=niter)
+        for k, c in enumerate(cs):
+            got = dict(first=first[k], second=dict(zu=int(aw.zu[k]), zl=int(aw.zl[k]), zi=int(aw.zi[k]), x=_num(x.v[k]), e=_num(x.e[k])))
+            if got != c["exp"]:
+                bad.append(dict(cls="AntiWindup.niter_lock", case={q: c[q] for q in c if q != "exp"}, expected=c["exp"], got=got))
+    return bad
+
+
+def check_sorted(cases):
+    """SortedLimiter (PV -> PQ conversion): three devices per case, sticky flags over two evaluations; the closed gate is
+    presented as (niter = 0 < min_iter, err = 1 > err_tol), the open one alternately as a late iteration, a small error, or no
+    iteration information at all."""
+    NumParam, Algeb, State = _mk()
+    from andes.core.discrete import SortedLimiter
+    bad = []
+    opens = (dict(niter=2, err=1.0), dict(niter=0, err=0.001), dict(niter=None, err=None), dict(niter=5, err=1e-9))
+    for j, c in enumerate(cases):
+        u, lo, hi = Algeb(), NumParam(), NumParam()
+        u.v = np.zeros(3)
+        lo.v = -10.0 * np.ones(3)
+        hi.v = 10.0 * np.ones(3)
+        lim = SortedLimiter(u, lo, hi, n_select=c["n"], min_iter=2, err_tol=0.01, abs_violation=True)
+        lim.list2array(3)
+        for k, call in enumerate(c["calls"]):
+            u.v[:] = call["u"]
+            kw = opens[(j + k) % len(opens)] if call["open"] else dict(niter=0, err=1.0)
+            lim.check_var(dae_t=-1.0, **kw)
+            got = dict(zu=[int(v) for v in lim.zu], zl=[int(v) for v in lim.zl], zi=[int(v) for v in lim.zi])
+            if got != c["flags"][k]:
+                bad.append(dict(cls="SortedLimiter", evaluation=k, calls=c["calls"], n_select=c["n"], passed=kw, expected=c["flags"][k], got=got))
+                break
+    return bad
